@@ -215,7 +215,7 @@ def shrink_case(harness, case, proj_opts, kinds, want):
         return any((f.klass, f.kind) == want for f in fs)
     body = [l for l in case.lines]
     i = 0; tries = 0
-    while i < len(body) and tries < 400:
+    while i < len(body) and tries < 120:
         ln = body[i]
         if ln.split()[0] in ("new", "withcap", "end", "clone", "cloneempty", "cloneemptyin"):
             i += 1; continue
